@@ -4,6 +4,7 @@ package query
 //verif:pkg lib/query
 //verif:harness VerifC04TextKeys mode=bv tier=quick split=12
 //verif:harness VerifC04Normalise mode=bv tier=quick split=4
+//verif:harness VerifC04KeyDecodable mode=bv tier=quick split=6
 
 import (
 	"math"
@@ -190,5 +191,62 @@ func VerifC04Normalise() {
 	}
 	PutComparisonkeysBuf(kx)
 	PutComparisonkeysBuf(ky)
+	verifReach("end")
+}
+
+
+// Unique decodability of the bucket key: the key of a row of two text cells (0..2 bytes each,
+// thorough 0..3, over the delimiter alphabet) splits at its unescaped ':' separators into exactly
+// two fields, and each field, with its [S] tag removed and escapes undone, is the (normalised)
+// text of its cell.  Any key format with this property is injective on rows of any length.
+func VerifC04KeyDecodable() {
+	tx := verifNewTx()
+	flags := tx.Flags
+	flags.StrictEqual = verifChoice("strict", 2) == 1
+	L := verifBound(3, 4)
+	c1, c2 := verifC04Text("a", verifChoice("len", L)), verifC04Text("b", verifChoice("len", L))
+	kb := GetComparisonKeysBuf()
+	SerializeComparisonKeys(kb, []value.Primary{value.NewString(c1), value.NewString(c2)}, flags)
+	key := kb.String()
+	// reference decoder
+	var fields [][]byte
+	var cur []byte
+	for i := 0; i < len(key); i++ {
+		ch := key[i]
+		if ch == '\\' {
+			verifAssert("an escape character is followed by a character", i+1 < len(key))
+			if i+1 < len(key) {
+				cur = append(cur, key[i+1])
+			}
+			i++
+			continue
+		}
+		if ch == ':' {
+			fields = append(fields, cur)
+			cur = nil
+			continue
+		}
+		cur = append(cur, ch)
+	}
+	fields = append(fields, cur)
+	verifAssert("the key splits into one field per column", len(fields) == 2)
+	for fi, want := range []string{c1, c2} {
+		if fi >= len(fields) {
+			break
+		}
+		f := fields[fi]
+		verifAssert("field carries the string tag", len(f) >= 3 && f[0] == '[' && f[1] == 'S' && f[2] == ']')
+		if len(f) < 3 {
+			continue
+		}
+		got := string(f[3:])
+		if flags.StrictEqual {
+			verifAssert("decoded field is the cell text", got == want)
+		} else {
+			verifAssert("decoded field is the case-folded cell text", verifUpperEq(got, want))
+		}
+	}
+	PutComparisonkeysBuf(kb)
+	verifObserve("keylen", int64(len(key)))
 	verifReach("end")
 }
